@@ -212,26 +212,30 @@ def path_ops(rng, opts, size, quick):
                [M("good"), S("good"), L("upper")], [M("good"), S("good"), L("other", alt())],
                [M("good"), S("truncate", len=rng.choice([0, 3, 50, 75, 76])), L("snet")],
                [M("absent"), S("truncate", len=rng.choice([0, 3, 50, 75, 76])), L("noext")]]
-    if not big:   # scenes that really load a pickle or write one
-        for e in ("noext", "xodr"):
-            scenes.append([M("good"), S("good"), L(e), L(e, w=True)])
-            o2 = alt()
-            scenes.append([M("good"), S("absent"), L(e, w=True), L("noext"), L("xodr", o2), L("noext", o2, w=True), L("xodr", o2), L("noext")])
-            scenes.append([M("good"), S("absent"), L(e, w=False), L(e, u=False, w=True), L(e, u=False, w=True), L(e)])
-            scenes.append([M("good"), S("good"), M("changed"), L(e, w=True), L(e), M("good"), L(e), L(e, w=True), L(e)])
-        scenes.append([M("changed"), S("good"), L("snet", alt(), w=True)])
-        scenes.append([M("absent"), S("good"), L("noext", alt(), w=True), L("xodr")])
-        scenes.append([M("good"), S("truncate", len=400), L("noext", w=True), L("noext")])
-    core, rest = scenes[:10], scenes[10:]   # the stale-cache scenes (no pickle is loaded or written) run for every case
-    rng.shuffle(rest)
-    if quick and size >= 300_000:
-        rest = rest[:5 if big else 10]
-    scenes = core + rest
+    core, cheap = scenes[:10], scenes[10:]   # no pickle is loaded or written in these: they run for every case
+    exp = []   # scenes that really load a pickle or write one (cost grows with the map)
+    for e in ("noext", "xodr"):
+        exp.append([M("good"), S("good"), L(e), L(e, w=True)])
+        o2 = alt()
+        exp.append([M("good"), S("absent"), L(e, w=True), L("noext"), L("xodr", o2), L("noext", o2, w=True), L("xodr", o2), L("noext")])
+        exp.append([M("good"), S("absent"), L(e, w=False), L(e, u=False, w=True), L(e, u=False, w=True), L(e)])
+        exp.append([M("good"), S("good"), M("changed"), L(e, w=True), L(e), M("good"), L(e), L(e, w=True), L(e)])
+    exp.append([M("changed"), S("good"), L("snet", alt(), w=True)])
+    exp.append([M("absent"), S("good"), L("noext", alt(), w=True), L("xodr")])
+    exp.append([M("good"), S("truncate", len=400), L("noext", w=True), L("noext")])
+    rng.shuffle(exp)
+    rng.shuffle(cheap)
+    if quick:
+        exp = exp if size < 60_000 else exp[:3] if size < 300_000 else exp[:1] if not big else []
+        cheap = cheap if not big else cheap[:5]
+    elif big:
+        exp = exp[:2]
+    scenes = core + cheap + exp
     rng.shuffle(scenes)
     ops = [o for sc in scenes for o in sc]
     if size < 300_000:   # free-running history: no resets
         cur_opts = [dict(opts)] + alts[:3]
-        for _ in range(14 if quick else 60):
+        for _ in range((14 if size < 60_000 else 5) if quick else 60):
             r = rng.random()
             if r < 0.15:
                 ops.append(M(rng.choice(["good", "changed", "changed2", "absent"])))
@@ -818,7 +822,7 @@ def main():
                              seed=rng.randrange(10 ** 9), npts=npts if size < 10 ** 6 or not quick else 120,
                              variants=cache_variants(rng, opts, quick) if (oi == 0 or not quick) else
                              [v for i, v in enumerate(cache_variants(rng, opts, True)) if i < 3 or v["kind"].startswith("option")],
-                             path_ops=path_ops(rng, opts, size, quick) if (oi <= 1 or not quick) else []))
+                             path_ops=path_ops(rng, opts, size, quick) if (oi <= 1 or (not quick and size < 1_100_000)) else []))
         nmut = (1 if size < 300_000 else 0) if quick else (6 if size < 10 ** 6 else 2)
         for mi in range(nmut):
             name = f"{base}__m{mi}"
